@@ -11,6 +11,7 @@ PROPS = {"C14": dict(
         "Zrnt.Proofs.C14.allocator_unknown",
         "Zrnt.Proofs.C14.envelope_roundtrip",
         "Zrnt.Proofs.C14.upgrade_tables",
+        "Zrnt.Proofs.C14.state_fork_invariant",
         "Zrnt.Proofs.C14.mainnet_constants_eq",
         "Zrnt.Proofs.C14.minimal_constants_eq",
         "Zrnt.Proofs.C14.go_constants_eq",
@@ -33,6 +34,8 @@ PROPS = {"C14": dict(
         "fork epochs are non-decreasing in fork order (valid configurations); SLOTS_PER_EPOCH != 0",
         "chains start from a phase0 genesis (the only genesis zrnt builds), so ALTAIR_FORK_EPOCH = 0 is outside the chain part",
         "the Electra state upgrade is unsupported by the repository itself (UpgradeToElectra returns an error); chains are judged up to Deneb",
+        "state_fork_invariant: no fork's 64-bit wrapped product epoch*SLOTS_PER_EPOCH lands within the slots walked unless it is the true product (FAR_FUTURE_EPOCH*8 wraps to 2^64-8)",
+        "envelope signature: accept/reject under right/wrong version, chain, proposer and key is established by the correspondence with real BLS and real SHA-256 on both sides, not by a theorem (a theorem would need an ideal-hash assumption on 28-byte truncated roots)",
     ],
     rule="generated op lines (fork version/digest/allocator queries over random monotone schedules at both sides of every boundary, kick-started chains across the boundaries, envelope round trips of random blocks of every fork, envelope signatures with real BLS under right/wrong version/chain/key, every field of the decoded built-in structs, every Go-level constant); non-trivial = executed by Go (not bad-op); distinct = distinct op lines",
     manifest=dict(
